@@ -1620,4 +1620,282 @@ theorem isConfirmed_getEq {t0 now : Nat} {s s' : State} (h : GetEq t0 s s') (key
     isConfirmed s now key = isConfirmed s' now key := by
   unfold isConfirmed; rw [h.1]
 
+/-! ### several windows: a lock is live for one window after its last change -/
+
+theorem sinceOf_setSince (l : List (Str × Nat)) (id : Str) (t : Nat) (k : Str) :
+    sinceOf (setSince l id t) k = if k = id then some t else sinceOf l k := by
+  unfold setSince
+  by_cases h : k = id
+  · subst h; simp [sinceOf]
+  · have h' : ¬ id = k := fun e => h e.symm
+    simp only [sinceOf, h', h, if_false]
+    induction l with
+    | nil => simp [sinceOf]
+    | cons p l ih =>
+      obtain ⟨pk, pr⟩ := p
+      by_cases e : pk = id
+      · subst e
+        simp only [List.filter_cons, ne_eq, not_true_eq_false, decide_false, Bool.false_eq_true, if_false, ih, sinceOf, h']
+      · simp only [List.filter_cons, ne_eq, e, not_false_eq_true, decide_true, if_true, sinceOf, ih]
+
+theorem sinceOf_mem {l : List (Str × Nat)} {k : Str} {r : Nat} (h : sinceOf l k = some r) : (k, r) ∈ l := by
+  induction l with
+  | nil => simp [sinceOf] at h
+  | cons p l ih =>
+    obtain ⟨pk, pr⟩ := p
+    simp only [sinceOf] at h
+    by_cases e : pk = k
+    · simp only [e, if_true, Option.some.injEq] at h
+      subst e; subst h; exact List.mem_cons_self
+    · simp only [e, if_false] at h
+      exact List.mem_cons_of_mem _ (ih h)
+
+/-- an operation leaves the prescribed blocking state of every other upkeep id alone -/
+theorem block_step_other (cfg : Cfg) (g : Ghost) (op : Op) (id : Str) (h : opId op ≠ some id) :
+    (g.step cfg op).block id = g.block id := by
+  have hlog : ∀ (o : Op) (l : Log), (o = .perform l ∨ o = .stale l) → opId o ≠ some id →
+      (g.addLog cfg o).block id = g.block id := by
+    intro o l ho hne
+    unfold Ghost.addLog
+    cases hc : logContrib cfg o with
+    | none => rfl
+    | some q =>
+      obtain ⟨k, id', x⟩ := q
+      simp only
+      split
+      · have hid : opId o = some id' := by
+          rcases ho with rfl | rfl
+          · simp only [logContrib] at hc
+            split at hc
+            · simp at hc
+            · cases hs : splitUpkeepKey l.key with
+              | none => rw [hs] at hc; simp at hc
+              | some p =>
+                obtain ⟨c, i⟩ := p
+                rw [hs] at hc
+                simp only [Option.some.injEq, Prod.mk.injEq] at hc
+                simp [opId, hs, hc.2.1]
+          · simp only [logContrib] at hc
+            split at hc
+            · simp at hc
+            · cases hs : splitUpkeepKey l.key with
+              | none => rw [hs] at hc; simp at hc
+              | some p =>
+                obtain ⟨c, i⟩ := p
+                rw [hs] at hc
+                simp only at hc
+                cases hp : parseBig c with
+                | none => rw [hp] at hc; simp at hc
+                | some v =>
+                  rw [hp] at hc
+                  simp only [Option.some.injEq, Prod.mk.injEq] at hc
+                  simp [opId, hs, hc.2.1]
+        have hne' : id' ≠ id := fun e => hne (by rw [hid, e])
+        rw [block_of_contribs (g := g) rfl id]
+        simp [hne']
+      · rfl
+  cases op with
+  | accept k =>
+    cases hs : splitUpkeepKey k with
+    | none => rw [ghost_accept_none hs]
+    | some p =>
+      obtain ⟨c, id'⟩ := p
+      rw [ghost_accept_some hs]
+      have hne' : id' ≠ id := fun e => h (by simp [opId, hs, e])
+      rw [block_of_contribs (g := g) rfl id]
+      simp [hne']
+  | perform l => exact hlog _ l (Or.inl rfl) h
+  | stale l => exact hlog _ l (Or.inr rfl) h
+
+/-- `updateIdBlock` leaves an entry alone or writes it with a whole window to live -/
+theorem find_updateIdBlock_cases (cfg : Cfg) (c : Cache IdBlocker) (t : Nat) (id' : Str) (val : IdBlocker) (id : Str) :
+    (updateIdBlock cfg c t id' val).find id = c.find id ∨
+      ∃ v, (updateIdBlock cfg c t id' val).find id = some (v, t + cfg.window) := by
+  have hset : (c.set t cfg.window id' val).find id = c.find id ∨
+      ∃ v, (c.set t cfg.window id' val).find id = some (v, t + cfg.window) := by
+    rw [find_set]
+    by_cases e : id = id'
+    · right; exact ⟨val, by simp [e, window_pos cfg]⟩
+    · left; simp [e]
+  unfold updateIdBlock
+  split
+  · split
+    · exact hset
+    · exact Or.inl rfl
+  · exact hset
+
+/-- … and so does every operation -/
+theorem find_step_cases (cfg : Cfg) (s : State) (t : Nat) (op : Op) (id : Str) :
+    (step cfg s t op).idBlocks.find id = s.idBlocks.find id ∨
+      ∃ v, (step cfg s t op).idBlocks.find id = some (v, t + cfg.window) := by
+  have hproc : ∀ key c id' tb, (processLog cfg s t key c id' tb).idBlocks.find id = s.idBlocks.find id ∨
+      ∃ v, (processLog cfg s t key c id' tb).idBlocks.find id = some (v, t + cfg.window) := by
+    intro key c id' tb
+    unfold processLog
+    split
+    · exact Or.inl rfl
+    · exact find_updateIdBlock_cases cfg _ t _ _ id
+    · split
+      · split
+        · exact find_updateIdBlock_cases cfg _ t _ _ id
+        · exact Or.inl rfl
+      · exact Or.inl rfl
+  cases op with
+  | accept k =>
+    simp only [step, accept]
+    split
+    · exact Or.inl rfl
+    · split
+      · exact Or.inl rfl
+      · exact find_updateIdBlock_cases cfg _ t _ _ id
+  | perform l =>
+    simp only [step, performLog]
+    split
+    · exact Or.inl rfl
+    · split
+      · exact Or.inl rfl
+      · exact hproc _ _ _ _
+  | stale l =>
+    simp only [step, staleLog]
+    split
+    · exact Or.inl rfl
+    · split
+      · exact Or.inl rfl
+      · split
+        · exact Or.inl rfl
+        · exact hproc _ _ _ _
+
+/-- the simulation without a common deadline: every stored lock lives at least one window past the last change of the
+    blocking state the history prescribes for its id -/
+structure LiveSim (cfg : Cfg) (limA : Nat) (s : State) (tg : TGhost) : Prop where
+  sim : Sim2 0 limA [] [] s tg.g
+  dl  : ∀ id b e, s.idBlocks.find id = some (b, e) → ∃ r, sinceOf tg.since id = some r ∧ r + cfg.window ≤ e
+
+theorem liveSim_init (cfg : Cfg) (limA : Nat) : LiveSim cfg limA State.init TGhost.init := by
+  refine ⟨sim_init2 _ _ _ _, ?_⟩
+  intro id b e h
+  simp [State.init, Cache.empty, Cache.find] at h
+
+theorem Sim2.relimit {limI limI' limA : Nat} {PA PL : List Str} {s : State} {g : Ghost}
+    (h : Sim2 limI limA PA PL s g) (hf : Fresh s.idBlocks limI') : Sim2 limI' limA PA PL s g :=
+  ⟨hf, h.freshA, h.canon, h.blocks, h.active, h.wit, h.logAcc⟩
+
+theorem fresh_zero {α} (c : Cache α) : Fresh c 0 := fun _ _ _ _ => Nat.zero_le _
+
+theorem liveSim_step (cfg : Cfg) {limA t : Nat} {s : State} {tg : TGhost} (h : LiveSim cfg limA s tg) (op : Op)
+    (hl : tg.liveAt cfg.window t = true) (hta : t ≤ limA) (ha : limA ≤ t + activeTtlNs) (hc : opCanon op = true) :
+    LiveSim cfg limA (step cfg s t op) (tg.step cfg t op) := by
+  have hlive : ∀ k r, sinceOf tg.since k = some r → r ≤ t ∧ t ≤ r + cfg.window := by
+    intro k r hk
+    have hm := sinceOf_mem hk
+    simp only [TGhost.liveAt, List.all_eq_true, Bool.and_eq_true, decide_eq_true_eq] at hl
+    exact hl (k, r) hm
+  have hfresh : Fresh s.idBlocks t := by
+    intro k v e hf
+    obtain ⟨r, hr, hre⟩ := h.dl k v e hf
+    have := hlive k r hr
+    omega
+  have S : Sim2 t limA [] [] s tg.g := h.sim.relimit hfresh
+  have S' := sim_step cfg S op (Nat.le_refl t) (Nat.le_add_right t _) hta ha hc (opFree_nil op)
+  refine ⟨S'.relimit (fresh_zero _), ?_⟩
+  intro id b e hf
+  have hsince : ∀ k, sinceOf (tg.step cfg t op).since k =
+      if opId op = some k ∧ (tg.g.step cfg op).block k ≠ tg.g.block k then some t else sinceOf tg.since k := by
+    intro k
+    simp only [TGhost.step]
+    cases ho : opId op with
+    | none => simp
+    | some id0 =>
+      simp only [Option.some.injEq]
+      by_cases hb : (tg.g.step cfg op).block id0 = tg.g.block id0
+      · rw [if_pos hb]
+        by_cases e : id0 = k
+        · subst e; simp [hb]
+        · simp [e]
+      · rw [if_neg hb, sinceOf_setSince]
+        by_cases e : k = id0
+        · subst e; simp [hb]
+        · have e' : ¬ id0 = k := fun x => e x.symm
+          simp [e, e']
+  have hblk : (tg.step cfg t op).g = tg.g.step cfg op := rfl
+  rcases find_step_cases cfg s t op id with hsame | ⟨v, hset⟩
+  · rw [hsame] at hf
+    obtain ⟨r, hr, hre⟩ := h.dl id b e hf
+    refine ⟨r, ?_, hre⟩
+    rw [hsince]
+    have hbe : (tg.g.step cfg op).block id = tg.g.block id := by
+      rw [← S'.blocks id, ← S.blocks id, hsame]
+    simp [hbe, hr]
+  · rw [hset] at hf
+    simp only [Option.some.injEq, Prod.mk.injEq] at hf
+    rw [hsince]
+    by_cases hch : opId op = some id ∧ (tg.g.step cfg op).block id ≠ tg.g.block id
+    · exact ⟨t, by simp [hch], by omega⟩
+    · have hbe : (tg.g.step cfg op).block id = tg.g.block id := by
+        by_cases ho : opId op = some id
+        · by_cases hb : (tg.g.step cfg op).block id = tg.g.block id
+          · exact hb
+          · exact absurd ⟨ho, hb⟩ hch
+        · exact block_step_other cfg tg.g op id ho
+      have hsome : (s.idBlocks.find id).map (fun p => ofBlk p.1) = some (ofBlk v) := by
+        rw [S.blocks id, ← hbe, ← S'.blocks id, hset]; rfl
+      cases hfo : s.idBlocks.find id with
+      | none => rw [hfo] at hsome; simp at hsome
+      | some q =>
+        obtain ⟨b0, e0⟩ := q
+        obtain ⟨r, hr, _⟩ := h.dl id b0 e0 hfo
+        have := hlive id r hr
+        refine ⟨r, ?_, by omega⟩
+        rw [if_neg hch, hr]
+
+theorem tghostFrom_g (cfg : Cfg) (h : List (Nat × Op)) (tg tg' : TGhost) (ht : tghostFrom cfg tg h = some tg') :
+    tg'.g = ghostFrom cfg tg.g (h.map (·.2)) := by
+  induction h generalizing tg with
+  | nil => simp only [tghostFrom, Option.some.injEq] at ht; subst ht; rfl
+  | cons p h ih =>
+    obtain ⟨t, op⟩ := p
+    simp only [tghostFrom] at ht
+    split at ht
+    · simpa [ghostFrom, TGhost.step] using ih _ ht
+    · simp at ht
+
+theorem liveSim_run (cfg : Cfg) (limA : Nat) (h : List (Nat × Op)) (s : State) (tg tg' : TGhost)
+    (hs : LiveSim cfg limA s tg)
+    (hh : ∀ p ∈ h, opCanon p.2 = true ∧ p.1 ≤ limA ∧ limA ≤ p.1 + activeTtlNs)
+    (ht : tghostFrom cfg tg h = some tg') : LiveSim cfg limA (run cfg s h) tg' := by
+  induction h generalizing s tg with
+  | nil => simp only [tghostFrom, Option.some.injEq] at ht; subst ht; exact hs
+  | cons p h ih =>
+    obtain ⟨t, op⟩ := p
+    obtain ⟨h1, h2, h3⟩ := hh (t, op) (by simp)
+    simp only [tghostFrom] at ht
+    split at ht
+    · rename_i hl
+      simp only [run]
+      exact ih _ _ (liveSim_step cfg hs op hl h2 h3 h1) (fun p hp => hh p (List.mem_cons_of_mem _ hp)) ht
+    · simp at ht
+
+/-- reading `IsPending` off the simulation for a probe whose lock (if any) is still running -/
+theorem isPending_of_liveSim {cfg : Cfg} {limA now : Nat} {s : State} {tg : TGhost} (h : LiveSim cfg limA s tg)
+    (key : Str) (hc : probeCanon key = true) (hp : probeLive cfg.window tg now key = true) :
+    isPending s now key = expPending tg.g key := by
+  unfold isPending expPending
+  cases hs : splitUpkeepKey key with
+  | none => rfl
+  | some p =>
+    obtain ⟨b, id⟩ := p
+    have hb : isCanon b = true := by simpa [probeCanon, hs] using hc
+    simp only
+    rw [← h.sim.blocks id]
+    cases hf : s.idBlocks.find id with
+    | none => simp [Cache.get, hf]
+    | some q =>
+      obtain ⟨bl, e⟩ := q
+      have hbl := h.sim.canon id bl e hf
+      obtain ⟨r, hr, hre⟩ := h.dl id bl e hf
+      have hnow : now ≤ r + cfg.window := by
+        simpa [probeLive, hs, hr] using hp
+      have hne : ¬ (e > 0 ∧ now > e) := by omega
+      simp only [Cache.get, hf, hne, if_false, Option.map_some, after_canon hb hbl.2, pendingN_ofBlk]
+
 end AutoVerif.C17
